@@ -262,6 +262,16 @@ theorem slow_simplex_unbounded_exact {lm : LinModel (Ext K)} (hW : WF lm) {s : S
     ∃ x, LinFeasible lm x ∧ (lm.optType = .min → obj lm x < M) ∧ (lm.optType = .max → M < obj lm x) :=
   unbounded_original hW hs hT stallExtra limit prefer hunb M
 
+/-- **phase-1 optimum below zero at exact arithmetic ⇒ the ORIGINAL model is infeasible** (C13 `fwd`, `std_shape` ∘ C14
+`phase1_feasible_value_bound` at `tol = 0`): when the artificial variables of `into_tableau_two_phase` cannot be
+driven to zero, no point satisfies `lm`.  (The tolerance version is C14 `phase1_nonzero_infeasible_partial`.) -/
+theorem slow_simplex_infeasible_exact {lm : LinModel (Ext K)} (hW : WF lm) {s : StdModel (Ext K)}
+    (hs : standardize lm = .ok s) (stallExtra limit : Nat) (prefer : List Nat)
+    (hok : (solve (0:K) stallExtra limit prefer (phase1Tab (stdK s))).result = .ok ())
+    (hneg : (solve (0:K) stallExtra limit prefer (phase1Tab (stdK s))).final.value < 0) :
+    ¬ ∃ x, LinFeasible lm x :=
+  phase1_negative_infeasible hW hs stallExtra limit prefer hok hneg
+
 /-- the loop has exactly three outcomes; the third (`IterationLimitReached`) is reported as `LimitReached` and
 carries no claim. -/
 theorem slow_simplex_outcomes (tol : K) (stallExtra limit : Nat) (prefer : List Nat) (T : Tab K) :
@@ -311,6 +321,14 @@ theorem slow_simplex_linUnbounded_exact {lm : LinModel (Ext K)} (hW : WF lm) (hn
     (hunb : (solve (0:K) stallExtra limit prefer T).result = .error .unbounded) : Compose.LinUnbounded lm :=
   ComposeSem.simplex_linUnbounded hW hnn hdv hnd hs hT stallExtra limit prefer hunb
 
+/-- **phase-1 optimum below zero at exact arithmetic ⇒ `Compose.LinInfeasible`.** -/
+theorem slow_simplex_linInfeasible_exact {lm : LinModel (Ext K)} (hW : WF lm) (hnn : ∀ d ∈ lm.domain, LinP.NNOK d.ty)
+    (hdv : ComposeSem.DomVars lm) {s : StdModel (Ext K)} (hs : standardize lm = .ok s)
+    (stallExtra limit : Nat) (prefer : List Nat)
+    (hok : (solve (0:K) stallExtra limit prefer (phase1Tab (stdK s))).result = .ok ())
+    (hneg : (solve (0:K) stallExtra limit prefer (phase1Tab (stdK s))).final.value < 0) : Compose.LinInfeasible lm :=
+  ComposeSem.simplex_linInfeasible hW hnn hdv hs stallExtra limit prefer hok hneg
+
 /-- the adapter itself: by-name feasibility / objective = positional feasibility / objective. -/
 theorem linFeasible_iff_positional {lm : LinModel (Ext K)} (hW : WF lm) (hnn : ∀ d ∈ lm.domain, LinP.NNOK d.ty)
     (hdv : ComposeSem.DomVars lm) (ρ : String → K) :
@@ -346,6 +364,13 @@ example : standardize exUnb = .ok exUnbStd ∧ WF exUnb ∧ CanonicalFor exTU (s
     obtain ⟨x, hx, hmin, _⟩ :=
       slow_simplex_unbounded_exact exUnb_wf exUnb_std exTU_canonicalFor 1 10 [] exTU_solve M
     exact ⟨x, hx, hmin rfl⟩⟩
+
+/-- the hypotheses of `slow_simplex_infeasible_exact` are satisfiable (`min x s.t. x ≤ −1, x ≥ 0`: the phase-1 tableau
+is optimal at once, at value `−1`), and it applies. -/
+example : standardize exInf = .ok exInfStd ∧ WF exInf ∧ ¬ ∃ x, LinFeasible exInf x := by
+  refine ⟨exInf_std, exInf_wf, slow_simplex_infeasible_exact exInf_wf exInf_std 1 10 [] ?_ ?_⟩
+  · rw [exInf_phase1]; exact (exTI_solve []).1
+  · rw [exInf_phase1, (exTI_solve []).2]; norm_num
 
 /-- the hypotheses of `slow_simplex_direct_start_partial` are satisfiable (tolerance `1e-5`), and the tableau it
 yields for `exMin` is `exT`. -/
